@@ -75,6 +75,43 @@ func (t *Teamserver) LinkAdd(ParentAgent *agent.Agent, LinkAgent *agent.Agent) e
 		}
 	}
 
+	// the connect was accepted, so by the sessions in memory the new child is not above its
+	// new parent. if the stored links say it is, one of them is left over from a session that
+	// was not restored at the last start: kept, the links together restore a cycle at the next
+	var (
+		Seen  = map[int]bool{}
+		Path  [][2]int
+		Above = false
+	)
+
+	for ID := int(ParentAgentID); !Seen[ID] && !Above; {
+		Seen[ID] = true
+
+		Up, err := t.DB.ParentOf(ID)
+		if err != nil {
+			break
+		}
+
+		Path = append(Path, [2]int{Up, ID})
+		Above = Up == int(LinkAgentID)
+		ID = Up
+	}
+
+	if Above {
+		for _, Link := range Path {
+			// a link the sessions confirm stays
+			if Agent := t.AgentInstance(Link[1]); Agent != nil && Agent.Pivots.Parent != nil {
+				if ID, _ := strconv.ParseInt(Agent.Pivots.Parent.NameID, 16, 64); int(ID) == Link[0] {
+					continue
+				}
+			}
+
+			if err := t.DB.LinkRemove(Link[0], Link[1]); err != nil {
+				logger.Error("Could not remove stale link from database: " + err.Error())
+			}
+		}
+	}
+
 	err := t.DB.LinkAdd(int(ParentAgentID), int(LinkAgentID))
 	if err != nil {
 		logger.Error("Could not add link to database: " + err.Error())
